@@ -3,6 +3,12 @@
 //! (re-entrancy), calls of a "sink" contract that accepts or refuses depending on its state, and
 //! calls of an address without contract.  Transactions are atomic (cw-multi-test).
 // SCENARIO cw3fixed crate::scen_cw3fixed::FixedScen::new()
+// SCENARIO cw3fixedwide crate::scen_cw3fixed::FixedScen::new_wide()
+//
+// `cw3fixedwide` (C20): a pool of 37 (36 voter candidates + an outsider), long voting periods, many cheap proposals
+// and many votes on one proposal, so ListProposals / ReverseProposals / ListVotes / ListVoters exceed the default and
+// the maximum page size; frequent explicit page requests.  In wide mode the point queries `pvotes` are made only
+// for the voters that the proposal's ListVotes walk returned (still rendered in actor order, as the Lean driver does).
 use crate::common::*;
 use cosmwasm_schema::cw_serde;
 use cosmwasm_std::testing::MockApi;
@@ -81,6 +87,10 @@ pub struct FixedScen {
     seed: u64,
     /// `maxp` of the accepted instantiation (from the op line)
     maxp: String,
+    /// `cw3fixedwide` (C20)
+    wide: bool,
+    /// generator (wide): 0 = proposal-heavy trace, 1 = vote-heavy trace
+    mode: u64,
 }
 
 fn new_app(funder: &Addr) -> App {
@@ -161,7 +171,15 @@ impl FixedScen {
             time: 1571797419879305533,
             seed: 0,
             maxp: String::new(),
+            wide: false,
+            mode: 0,
         }
+    }
+
+    pub fn new_wide() -> Self {
+        let mut s = Self::new();
+        s.wide = true;
+        s
     }
 
     /// A fresh chain: bank with the funder's coins, the sink contract at `contract0`.
@@ -310,7 +328,11 @@ impl FixedScen {
         for _ in 0..1000 {
             match self.list_props(cur, Some(30)) {
                 Some(p) if !p.is_empty() => {
-                    cur = Some(p.last().unwrap().id);
+                    let next = Some(p.last().unwrap().id);
+                    if next == cur {
+                        break; // no progress (a defect in the code under test): do not walk forever
+                    }
+                    cur = next;
                     out.extend(p);
                 }
                 _ => break,
@@ -325,13 +347,47 @@ impl FixedScen {
         for _ in 0..1000 {
             match self.q::<VoterListResponse>(&QueryMsg::ListVoters { start_after: cur.clone(), limit: Some(30) }) {
                 Some(r) if !r.voters.is_empty() => {
-                    cur = Some(r.voters.last().unwrap().addr.clone());
+                    let next = Some(r.voters.last().unwrap().addr.clone());
+                    if next == cur {
+                        break; // no progress (a defect in the code under test): do not walk forever
+                    }
+                    cur = next;
                     out.extend(r.voters.into_iter().map(|v| (v.addr, v.weight)));
                 }
                 _ => break,
             }
         }
         out
+    }
+
+    /// all ballots of a proposal as `voter:weight:vote` (page size 30)
+    fn all_votes(&self, id: u64) -> Vec<String> {
+        let mut out: Vec<String> = vec![];
+        let mut cur: Option<String> = None;
+        for _ in 0..1000 {
+            match self.list_votes(id, cur.clone(), Some(30)) {
+                Some(p) if !p.is_empty() => {
+                    let next = Some(p.last().unwrap().split(':').next().unwrap().to_string());
+                    if next == cur {
+                        break; // no progress (a defect in the code under test): do not walk forever
+                    }
+                    cur = next;
+                    out.extend(p);
+                }
+                _ => break,
+            }
+        }
+        out
+    }
+
+    fn list_votes(&self, id: u64, after: Option<String>, limit: Option<u32>) -> Option<Vec<String>> {
+        self.q::<VoteListResponse>(&QueryMsg::ListVotes { proposal_id: id, start_after: after, limit })
+            .map(|r| r.votes.iter().map(|v| format!("{}:{}:{}", v.voter, v.weight, render_vote(v.vote))).collect())
+    }
+
+    fn list_voters(&self, after: Option<String>, limit: Option<u32>) -> Option<Vec<String>> {
+        self.q::<VoterListResponse>(&QueryMsg::ListVoters { start_after: after, limit })
+            .map(|r| r.voters.iter().map(|v| format!("{}:{}", v.addr, v.weight)).collect())
     }
 
     fn actors(&self) -> Vec<Addr> {
@@ -368,7 +424,11 @@ impl FixedScen {
         for _ in 0..1000 {
             match self.q::<VoterListResponse>(&QueryMsg::ListVoters { start_after: cur.clone(), limit: l }) {
                 Some(r) if !r.voters.is_empty() => {
-                    cur = Some(r.voters.last().unwrap().addr.clone());
+                    let next = Some(r.voters.last().unwrap().addr.clone());
+                    if next == cur {
+                        break; // no progress (a defect in the code under test): do not walk forever
+                    }
+                    cur = next;
                     voters.extend(r.voters.iter().map(|v| format!("{}:{}", v.addr, v.weight)));
                 }
                 _ => break,
@@ -389,7 +449,11 @@ impl FixedScen {
         for _ in 0..1000 {
             match self.list_props(cur, l) {
                 Some(p) if !p.is_empty() => {
-                    cur = Some(p.last().unwrap().id);
+                    let next = Some(p.last().unwrap().id);
+                    if next == cur {
+                        break; // no progress (a defect in the code under test): do not walk forever
+                    }
+                    cur = next;
                     props.extend(p);
                 }
                 _ => break,
@@ -401,7 +465,11 @@ impl FixedScen {
         for _ in 0..1000 {
             match self.rev_props(cur, l) {
                 Some(p) if !p.is_empty() => {
-                    cur = Some(p.last().unwrap().id);
+                    let next = Some(p.last().unwrap().id);
+                    if next == cur {
+                        break; // no progress (a defect in the code under test): do not walk forever
+                    }
+                    cur = next;
                     rprops.extend(p.iter().map(|x| self.render_prop(x)));
                 }
                 _ => break,
@@ -419,19 +487,31 @@ impl FixedScen {
         let mut votes: Vec<String> = vec![];
         let mut pvotes: Vec<String> = vec![];
         let mut raw: Vec<String> = vec![];
+        let mut nvotes: Vec<(usize, u64)> = vec![];
         for p in &props {
             let l = lim();
             let mut cur: Option<String> = None;
+            let mut listed: Vec<String> = vec![];
             for _ in 0..1000 {
                 match self.q::<VoteListResponse>(&QueryMsg::ListVotes { proposal_id: p.id, start_after: cur.clone(), limit: l }) {
                     Some(r) if !r.votes.is_empty() => {
-                        cur = Some(r.votes.last().unwrap().voter.clone());
+                        let next = Some(r.votes.last().unwrap().voter.clone());
+                        if next == cur {
+                            break; // no progress (a defect in the code under test): do not walk forever
+                        }
+                        cur = next;
                         votes.extend(r.votes.iter().map(|v| format!("{}>{}:{}:{}", p.id, v.voter, v.weight, render_vote(v.vote))));
+                        listed.extend(r.votes.iter().map(|v| v.voter.clone()));
                     }
                     _ => break,
                 }
             }
+            nvotes.push((listed.len(), p.id));
             for a in self.actors() {
+                // wide: point queries only for the voters the listing returned
+                if self.wide && !listed.iter().any(|v| v == a.as_str()) {
+                    continue;
+                }
                 if let Some(VoteResponse { vote: Some(v) }) =
                     self.q::<VoteResponse>(&QueryMsg::Vote { proposal_id: p.id, voter: a.to_string() })
                 {
@@ -467,8 +547,30 @@ impl FixedScen {
             .as_ref()
             .and_then(|s| SINK_OK.query(&self.app.wrap(), s.clone()).ok())
             .unwrap_or(true);
+        // C20 self-check of the listings (ListVotes: the three proposals with the most ballots)
+        let short = |ps: Vec<ProposalResponse>| -> Vec<String> {
+            ps.iter().map(|p| format!("{}:{}", p.id, render_status(p.status))).collect()
+        };
+        let mut pagediff: Vec<String> = vec![];
+        if let Some(d) = paging_audit("list_proposals", &|c, l| self.list_props(c.and_then(|x| x.parse().ok()), l).map(short)) {
+            pagediff.push(d);
+        }
+        if let Some(d) = paging_audit("reverse_proposals", &|c, l| self.rev_props(c.and_then(|x| x.parse().ok()), l).map(short)) {
+            pagediff.push(d);
+        }
+        if let Some(d) = paging_audit("list_voters", &|c, l| self.list_voters(c, l)) {
+            pagediff.push(d);
+        }
+        nvotes.sort_by(|a, b| b.0.cmp(&a.0).then(a.1.cmp(&b.1)));
+        for (_, id) in nvotes.iter().take(3) {
+            if let Some(d) = paging_audit("list_votes", &|c, l| self.list_votes(*id, c, l)) {
+                pagediff.push(d);
+            }
+        }
+        pagediff.dedup();
         format!(
-            "obs thr={} total={} voters={} pvoters={} props={} rprops={} pprops={} votes={} pvotes={} raw={} bal={} sink={}",
+            "obs pagediff={} thr={} total={} voters={} pvoters={} props={} rprops={} pprops={} votes={} pvotes={} raw={} bal={} sink={}",
+            pagediff.join(","),
             thr,
             total,
             voters.join(","),
@@ -485,6 +587,57 @@ impl FixedScen {
     }
 
     // ---- generator helpers
+    /// `cw3fixedwide`: many voters with small weights, a long voting period
+    fn gen_inst_wide(&self, rng: &mut Rng) -> String {
+        let cands: Vec<Addr> = self.pool[..self.pool.len() - 1].to_vec();
+        let n = if rng.chance(5, 6) { 33 + rng.below(4) as usize } else { 1 + rng.below(cands.len() as u64) as usize };
+        let start = rng.below(cands.len() as u64) as usize;
+        let mut total: u64 = 0;
+        let mut voters: Vec<String> = vec![];
+        for i in 0..n.min(cands.len()) {
+            let w = if rng.chance(1, 40) { 0 } else { 1 + rng.below(3) };
+            total += w;
+            voters.push(format!("+{}:{}", cands[(start + i * 7) % cands.len()], w));
+        }
+        let t = total.max(1);
+        let thr = match rng.below(4) {
+            0 => format!("count:{}", 1 + rng.below(t)),
+            1 => format!("count:{t}"),
+            2 => format!("pct:{}", *rng.pick(&[500_000_000_000_000_000u128, 600_000_000_000_000_000, 1_000_000_000_000_000_000])),
+            _ => format!("quorum:{}:{}", 500_000_000_000_000_000u128, *rng.pick(&[300_000_000_000_000_000u128, 800_000_000_000_000_000])),
+        };
+        let maxp = if rng.chance(2, 3) { format!("h{}", 500 + rng.below(2000)) } else { format!("t{}", 50_000 + rng.below(50_000)) };
+        format!("inst voters={} thr={} maxp={} funds={} funds2={}", voters.join(","), thr, maxp, rng.below(120), 0)
+    }
+
+    /// `cw3fixedwide`: an explicit page request (cursor: none, an existing key, a non-key)
+    fn gen_page_query(&self, rng: &mut Rng, next_id: u64, voters: &[(String, u64)], focus: u64) -> String {
+        let lim = *rng.pick(&["-", "0", "1", "9", "10", "11", "29", "30", "31", "32", "100"]);
+        let idc = match rng.below(8) {
+            0 | 1 => "-".to_string(),
+            2 => "0".to_string(),
+            3 => (next_id + rng.below(7)).to_string(),
+            4 if rng.chance(1, 3) => u64::MAX.to_string(),
+            _ => (1 + rng.below(next_id.max(2) - 1)).to_string(),
+        };
+        let ac = match rng.below(8) {
+            0 | 1 => "-".to_string(),
+            2 => rng.pick(&self.pool).to_string(),
+            3 => "cosmwasm1m".to_string(),
+            _ if !voters.is_empty() => rng.pick(voters).0.clone(),
+            _ => "-".to_string(),
+        };
+        match rng.below(8) {
+            0 | 1 => format!("query list_proposals after={idc} limit={lim}"),
+            2 | 3 => format!("query reverse_proposals before={idc} limit={lim}"),
+            4 | 5 => {
+                let id = if rng.chance(3, 4) { focus } else { rng.below(next_id + 1) };
+                format!("query list_votes id={id} after={ac} limit={lim}")
+            }
+            _ => format!("query list_voters after={ac} limit={lim}"),
+        }
+    }
+
     fn gen_inst(&self, rng: &mut Rng) -> String {
         let n = 1 + rng.below(6) as usize;
         let mut voters: Vec<String> = vec![];
@@ -657,12 +810,13 @@ impl FixedScen {
 impl Scenario for FixedScen {
     fn start(&mut self, seed: u64, trace: u64) -> String {
         let api = MockApi::default();
-        let p = pool(&api, 6);
+        let p = pool(&api, if self.wide { 37 } else { 6 });
         self.height = 12345;
         self.time = 1571797419879305533;
         let me = self.predict_self();
         let header = format!(
-            "scenario cw3fixed seed={} trace={} pool={} self={}",
+            "scenario {} seed={} trace={} pool={} self={}",
+            if self.wide { "cw3fixedwide wide=1" } else { "cw3fixed" },
             seed,
             trace,
             p.iter().map(|a| a.to_string()).collect::<Vec<_>>().join(","),
@@ -680,16 +834,69 @@ impl Scenario for FixedScen {
         self.height = 12345;
         self.time = 1571797419879305533;
         self.contract = None;
+        self.wide = a.get("wide") == Some("1");
         self.fresh_chain();
     }
 
     fn gen_op(&mut self, rng: &mut Rng, _step: usize) -> String {
         if self.contract.is_none() {
+            if self.wide {
+                self.mode = rng.below(2);
+                return self.gen_inst_wide(rng);
+            }
             return self.gen_inst(rng);
         }
         let props = self.all_props();
         let voters = self.all_voters();
         let next_id = props.len() as u64 + 1;
+        if self.wide && rng.chance(19, 20) {
+            let (height, time) = (self.height, self.time);
+            let open_for_votes = |p: &ProposalResponse| -> bool {
+                p.status != Status::Executed
+                    && match p.expires {
+                        Expiration::AtHeight(h) => height < h,
+                        Expiration::AtTime(t) => time < t.nanos(),
+                        Expiration::Never {} => true,
+                    }
+            };
+            // the focus proposal: the first one still open for votes that not every voter has voted on
+            let mut focus = 0u64;
+            let mut focus_voted: Vec<String> = vec![];
+            // … and the one with the most ballots among those looked at (target of the ListVotes page requests)
+            let mut most = (0usize, 1u64);
+            for p in props.iter().filter(|p| open_for_votes(p)).take(4) {
+                let v: Vec<String> = self.all_votes(p.id).iter().map(|e| e.split(':').next().unwrap().to_string()).collect();
+                if v.len() > most.0 {
+                    most = (v.len(), p.id);
+                }
+                if v.len() < voters.iter().filter(|x| x.1 > 0).count() {
+                    focus = p.id;
+                    focus_voted = v;
+                    break;
+                }
+            }
+            let r = rng.below(100);
+            if r < 4 {
+                let dh = *rng.pick(&[0u64, 1, 1, 2]);
+                let dt = *rng.pick(&[0u64, 1_000_000_000, 5_000_000_000]);
+                return format!("env height={} time={}", self.height + dh, self.time + dt);
+            }
+            if r < 20 {
+                return self.gen_page_query(rng, next_id, &voters, most.1);
+            }
+            let propose_pct = if self.mode == 0 { 85 } else { 10 };
+            if focus == 0 || rng.below(100) < propose_pct {
+                let snd = if voters.is_empty() { rng.pick(&self.pool).to_string() } else { rng.pick(&voters).0.clone() };
+                let msgs = if rng.chance(1, 4) { self.gen_msgs(rng, next_id) } else { String::new() };
+                let latest = if rng.chance(9, 10) { "-".to_string() } else { self.gen_latest(rng) };
+                return format!("exec {} propose title=t{} desc=d{} msgs={} latest={}", snd, rng.below(5), rng.below(3), msgs, latest);
+            }
+            let fresh: Vec<&(String, u64)> = voters.iter().filter(|v| !focus_voted.contains(&v.0)).collect();
+            let snd = if !fresh.is_empty() && rng.chance(14, 15) { rng.pick(&fresh).0.clone() } else { rng.pick(&self.pool).to_string() };
+            let v = *rng.pick(&["yes", "yes", "no", "abstain", "veto", "no"]);
+            let id = if rng.chance(9, 10) { focus } else { 1 + rng.below(next_id) };
+            return format!("exec {snd} vote id={id} vote={v}");
+        }
         let r = rng.below(100);
         if r < 12 {
             let dh = *rng.pick(&[0u64, 1, 1, 1, 2, 3, 5]);
